@@ -690,7 +690,9 @@ func (v *Visitor) resolveSkipArrayItem(fieldRef int, fieldName string, enclosing
 			shouldIncludeDeprecated := false
 
 			if includeDeprecatedVariableName != "" {
-				shouldIncludeDeprecated = ctx.Variables.GetBool(includeDeprecatedVariableName)
+				if value := ctx.VariablesView().Get(includeDeprecatedVariableName); value != nil {
+					shouldIncludeDeprecated = value.GetBool()
+				}
 			}
 
 			isDeprecated := itemValue.GetBool("isDeprecated")
